@@ -157,7 +157,10 @@ fn insert_cval(world: &mut World, e: Entity, v: &CVal, joints: &[Entity]) {
             em.insert(CompA { value: n as i32 });
         }
         Ty::B => {
-            em.insert(CompB(n as u32, f32::from_bits((n as u32).wrapping_mul(2654435761))));
+            // ordinary values are never NaN (bit 23 cleared: the exponent cannot be all ones); n >= 1_000_000 asks for a NaN
+            // (a value that is not equal to itself under reflect_partial_eq)
+            let f = if n >= 1_000_000 { f32::from_bits(0x7FC0_0000 | (n as u32 & 0xFFFF)) } else { f32::from_bits((n as u32).wrapping_mul(2654435761) & !(1 << 23)) };
+            em.insert(CompB(n as u32, f));
         }
         Ty::E => {
             em.insert(match n.rem_euclid(3) {
@@ -601,7 +604,7 @@ impl Session {
         let er = world.get_entity(e)?;
         macro_rules! comp {
             ($t:ty) => {
-                er.get::<$t>().and_then(|c| verif::reflect_to_bin(c.as_reflect(), &registry).ok()).map(|b| hex(&b))
+                er.get::<$t>().and_then(|c| verif::reflect_to_bin(c.as_reflect(), &registry).ok()).map(|b| hexs(&b))
             };
         }
         match ty {
@@ -900,7 +903,7 @@ impl Session {
             macro_rules! comp {
                 ($t:ty, $ty:expr) => {
                     if let Some(c) = er.get::<$t>() {
-                        let b = verif::reflect_to_bin(c.as_reflect(), &registry).map(|b| hex(&b)).unwrap_or("ERR".into());
+                        let b = verif::reflect_to_bin(c.as_reflect(), &registry).map(|b| hexs(&b)).unwrap_or("ERR".into());
                         comps.insert($ty.name().to_string(), b);
                     }
                 };
@@ -1101,7 +1104,7 @@ pub fn msg_json(as_server: bool, m: &verif::VMessage) -> Value {
         EntitySpawn { id } => json!({"k":"spawn","id":u(id)}),
         EntityParented { entity_id, parent_id } => json!({"k":"parented","id":u(entity_id),"parent":u(parent_id)}),
         EntityDelete { id } => json!({"k":"delete","id":u(id)}),
-        ComponentUpdated { id, name, data } => json!({"k":"comp","id":u(id),"name":name,"data":hex(data)}),
+        ComponentUpdated { id, name, data } => json!({"k":"comp","id":u(id),"name":name,"data":hexs(data)}),
         StandardMaterialUpdated { id, material } => json!({"k":"mat","id":u(id),"data":sha(material)}),
         MeshUpdated { id, url } => json!({"k":"mesh","id":u(id),"url":url}),
         ImageUpdated { id, url } => json!({"k":"image","id":u(id),"url":url}),
@@ -1115,6 +1118,16 @@ pub fn msg_json(as_server: bool, m: &verif::VMessage) -> Value {
 }
 
 /// what bevy_sync's `create_server` builds (it is crate-private): used when the application starts hosting again
+/// hex of short byte strings, digest + length of long ones (a 100 kB component value in every frame's state would make the
+/// traces unmanageable); equal values still compare equal
+pub fn hexs(b: &[u8]) -> String {
+    if b.len() > 4096 {
+        format!("sha:{}", sha(b))
+    } else {
+        hex(b)
+    }
+}
+
 pub fn make_server_transport(ip: IpAddr, port: u16) -> NetcodeServerTransport {
     use bevy_renet::renet::transport::{ServerAuthentication, ServerConfig};
     use std::time::SystemTime;
